@@ -29,9 +29,12 @@ def run(tier, pid='C08'):
         st += res.distinct
         tr += res.generated
         for kind in ('extended', 'basic'):
-            a, b = zoneproc.replay_edges(chk, exe, kind, nd, k, edges, zidx[kind], tag)
-            nscripts += a
-            nsteps += b
+            for variant in (0, 1):
+                zoneproc.ARG_VARIANT[0] = variant
+                a, b = zoneproc.replay_edges(chk, exe, kind, nd, k, edges, zidx[kind], tag + ('' if variant == 0 else '-jan'))
+                nscripts += a
+                nsteps += b
+        zoneproc.ARG_VARIANT[0] = 0
         if len(chk.cov['samples']) < 3:
             e = edges[len(edges) // 2]
             chk.sample({'config': tag, 'edge': {'from': e['from'], 'call': e['call'], 'to': e['to']}})
